@@ -150,6 +150,19 @@ pub fn check_behaviour(cfg: &Config, verif: &Path, target: &Path, frames_file: &
         } else {
             format!("MsgNotSupported(MsgNotSupportedT {{ message_number: {} }})", number)
         };
+        if lines[i] != want && lines[i].split('\t').next() == want.split('\t').next() {
+            return Err((
+                format!("c19:behaviour:{}", cfg.name),
+                format!(
+                    "build with [{}]: frame {} (number {}) decodes to the same message as in the full build, but encoding that message again gives {} instead of {}",
+                    cfg.features.join(","),
+                    i,
+                    number,
+                    lines[i].split('\t').nth(1).unwrap_or("nothing").chars().take(80).collect::<String>(),
+                    want.split('\t').nth(1).unwrap_or("nothing").chars().take(80).collect::<String>()
+                ),
+            ));
+        }
         if lines[i] != want {
             return Err((
                 format!("c19:behaviour:{}", cfg.name),
@@ -174,7 +187,7 @@ pub fn run(ctx: &Ctx, replay: Option<&J>) -> CheckResult {
     let rule = "configurations enumerated: every msgNNNN feature of /repo/Cargo.toml alone, the empty selection, all_msgs without std, all_msgs+serde without std, and every \
         single feature together with serde; each is built with `cargo check --lib --no-default-features` (the crate is then #![no_std]) — all of them in both tiers (exhaustive); for each, the resolved feature graph (`cargo tree -e features`) must not switch on `std`/`alloc` of any target dependency. Behavioural half: a \
         driver linked against the single-feature build decodes a frame file produced by the full-feature harness (golden + generated + hostile frames of all types with the full build's Debug \
-        rendering): frames of its own type must render identically, every other number must be MsgNotSupported{n}, and the same frames concatenated and read through that build's MsgFrameIter and through the chunked caller loop must give the same renderings in the same order; in both tiers for every single-feature configuration, the empty one and all_msgs (thorough adds the serde variants). non-trivial = configuration that compiles and decodes >=1 typed frame; distinct = configuration"
+        rendering): frames of its own type must render identically and encode again to the same bytes as in the full build, every other number must be MsgNotSupported{n}, and the same frames concatenated and read through that build's MsgFrameIter and through the chunked caller loop must give the same renderings in the same order; in both tiers for every single-feature configuration, the empty one and all_msgs (thorough adds the serde variants). non-trivial = configuration that compiles and decodes >=1 typed frame; distinct = configuration"
         .to_string();
     let assumptions = vec![
         "no bare-metal target is installed: 'without the standard library' is checked as #![no_std] compilation for the host triple".to_string(),
@@ -351,7 +364,17 @@ fn write_frames(ctx: &Ctx, work: &Path) -> (PathBuf, Vec<(u16, String)>) {
     let mut add = |f: &[u8], lines: &mut String, expected: &mut Vec<(u16, String)>| {
         if let Ok(Some(m)) = catch(|| decode_frame(f)) {
             let n = if f.len() >= 8 { crate::bits::get_bits(&f[3..], 0, 12).unwrap_or(0) as u16 } else { 0 };
-            let dbg = format!("{:?}", m);
+            // Debug rendering plus, for typed messages, the frame the full build produces when it encodes the decoded
+            // message again (C01's normal form as observed in the full build)
+            let dbg = if msggen::is_typed(&m) {
+                let re = match catch(|| msggen::build(&m)) {
+                    Ok(Ok(b)) => hex(&b),
+                    _ => "ERR".to_string(),
+                };
+                format!("{:?}\t{}", m, re)
+            } else {
+                format!("{:?}", m)
+            };
             lines.push_str(&hex(f));
             lines.push('\n');
             expected.push((n, dbg));
@@ -372,6 +395,33 @@ fn write_frames(ctx: &Ctx, work: &Path) -> (PathBuf, Vec<(u16, String)>) {
         for _ in 0..3 {
             let (p, _) = msggen::synth_payload(&mut rng, row.number);
             add(&crate::frame::frame(&p), &mut lines, &mut expected);
+        }
+    }
+    // count fields above the capacity followed by padding-like bodies (all 0x00, all 0x20, all 0xFF): every build must
+    // agree on them with the full build (lenient special cases are easily gated on the wrong feature)
+    for row in MSG_TABLE {
+        if let Some((off, width, cap)) = msggen::count_field(row.number) {
+            let maxv = (1usize << width) - 1;
+            if maxv <= cap {
+                continue;
+            }
+            let head_len = (off + width + 7) / 8;
+            for v in [cap + 1, (cap + 1 + maxv) / 2, maxv] {
+                for fill in [0x00u8, 0x20, 0xFF] {
+                    let mut p = vec![0u8; head_len];
+                    crate::bits::set_bits(&mut p, 0, 12, row.number as u64);
+                    crate::bits::set_bits(&mut p, off, width, v as u64);
+                    // the bits of the head byte after the count field take the fill too
+                    let used = off + width;
+                    for b in used..head_len * 8 {
+                        if (fill >> (7 - b % 8)) & 1 == 1 {
+                            p[b / 8] |= 0x80 >> (b % 8);
+                        }
+                    }
+                    p.extend(std::iter::repeat(fill).take(300));
+                    add(&crate::frame::frame(&p), &mut lines, &mut expected);
+                }
+            }
         }
     }
     // frames of unsupported numbers and an empty frame
